@@ -108,7 +108,7 @@ def _sys_isa_yaml(cfg) -> str:
         def sym_val(n, v):
             if v is None:
                 return ''
-            if v.isdigit() and str(int(v)) == v and (v == '5' or len(n) % 2 == 0):
+            if v.isdigit() and str(int(v)) == v and (v in ('0', '5') or len(n) % 2 == 0):
                 return f' {v}'
             return f' "{v}"'
         syms = '  symbols:\n' + ''.join(f'    - name: "{n}"\n      value:' + sym_val(n, v) + '\n' for n, v in cfg['syms'])
